@@ -238,6 +238,36 @@ def check_tokens(tokens, rng, failures, counters, zero_choices=None):
                 return
 
 
+def check_small_divisors(failures, counters):
+    """(f) a divisor that is small but not zero divides: `a / b`, `a / (b - c)`, `(a + b) / c` with divisors 5e-10,
+    -4e-10, 1e-12, 2**-31 (as a difference of two exactly representable readings); only an exact 0 makes the result
+    undefined.  Well conditioned expressions only (compared relative to the result)."""
+    tiny = [Fraction(5, 10**10), Fraction(-4, 10**10), Fraction(1, 10**12), Fraction(1, 2**31)]
+    cases = []
+    for d in tiny + [Fraction(0)]:
+        cases.append((["m1", "/", "m2"], {"m1": Fraction(6), "m2": d}))
+        cases.append((["(", "m1", "+", "m2", ")", "/", "m3"], {"m1": Fraction(1), "m2": Fraction(2), "m3": d}))
+        cases.append((["m1", "/", "(", "m2", "-", "m3", ")"], {"m1": Fraction(-3), "m2": Fraction(1) + d, "m3": Fraction(1)})
+                     if d.denominator in (1, 2**31) else (["m1", "/", "m2"], {"m1": d, "m2": d * 2}))
+    for toks, env in cases:
+        zeros = {m: False for m in env}
+        try:
+            steps, fetchers = compile_tokens(toks, zeros)
+            counters["evaluations"] += 1
+            counters["ho"] += 1
+            got = run_steps(steps, fetchers, dict(env))
+        except Exception as e:  # pylint: disable=broad-except
+            failures.append({"clause": "value", "detail": f"{render(toks)} with {env}: {type(e).__name__}: {e}"})
+            return
+        want = exact(parse(toks), env)
+        ok = (got is None) if want is UNDEF else (got is not None and math.isclose(got, float(want), rel_tol=1e-9))
+        if not ok:
+            failures.append({"clause": "value", "detail": f"{render(toks)} inputs={ {k: float(v) for k, v in env.items()} }: engine {got}, "
+                                                          f"exact {'undefined' if want is UNDEF else float(want)} "
+                                                          f"(a divisor that is small but not zero divides)"})
+            return
+
+
 def check_from_receiver(failures, counters):
     """(d) single-stream engines made with FormulaEngine.from_receiver: the stream's nones_are_zeros setting is the
     one given (a missing sample counts as 0 exactly when it was asked for), a present value passes through."""
@@ -457,6 +487,8 @@ def run(req):
     if not failures:
         check_from_receiver(failures, counters)
     if not failures:
+        check_small_divisors(failures, counters)
+    if not failures:
         asyncio.run(check_three_phase(failures, counters))
     if not failures:
         asyncio.run(check_higher_order(rng, failures, counters, t0 + budget))
@@ -467,7 +499,8 @@ def run(req):
                    "token strings (depth 3, constants, 3 metrics); (c) seeded random trees (depth 3) built with the engine "
                    "composition API incl. min/max/consumption/production; inputs from {-3,-1,0,1/2,2,7} and "
                    "None/NaN/+-inf, both nones_are_zeros settings; oracle = exact Fraction evaluation with ordinary "
-                   "precedence; distinct = distinct expressions"}
+                   "precedence; (f) small non-zero divisors (5e-10, -4e-10, 1e-12, 2**-31) and exact 0 in a / b, (a + b) / c, "
+                   "a / (b - c); distinct = distinct expressions"}
     if failures:
         out["failure"] = failures[0]
         out["inputs"] = {"see": "failure.detail"}
